@@ -51,7 +51,7 @@ func numLike(r *gen.R) string {
 	case 1:
 		return r.Pick("+", "-", "+-1", "1_0", "0x10", " 1", "1 ", "1e3", "१")
 	case 2:
-		return r.Pick("9223372036854775807", "9223372036854775808", "-9223372036854775808", "-9223372036854775809", "99999999999999999999", "-99999999999999999999", "000000000000000000000001")
+		return r.Pick("99999999999999999999x", "18446744073709551616x", "18446744073709551615x", "-99999999999999999999z", "9223372036854775807", "9223372036854775808", "-9223372036854775808", "-9223372036854775809", "99999999999999999999", "-99999999999999999999", "000000000000000000000001")
 	case 3:
 		return r.Pick("+", "-", "") + strconv.Itoa(r.Intn(5))
 	case 4:
